@@ -506,6 +506,20 @@ def b_list(E, args, node):
     raise Unsupported('list(%r)' % (v,))
 
 
+@libfn('builtins.tuple')
+def b_tuple(E, args, node):
+    if not args.pos:
+        return ()
+    v = args.pos[0]
+    if isinstance(v, tuple):
+        return v
+    if isinstance(v, list):
+        return tuple(v)
+    if isinstance(v, PyList):
+        return tuple(v.items)
+    raise Unsupported('tuple(%r)' % (v,))
+
+
 @libfn('builtins.dict')
 def b_dict(E, args, node):
     if not args.pos and not args.kw:
